@@ -75,6 +75,16 @@ theorem plain_delivery_direct (t : Table) (f : TFrame) (ht : t f.handle = none) 
     route t f = (t, .direct) := by
   simp [route, decide?, hf, ht]
 
+theorem step_table (s : St) (f : TFrame) : (step s f).1.table = (route s.table f).1 := by
+  unfold step
+  cases h : route s.table f with
+  | mk t r => cases r <;> rfl
+
+theorem step_route (s : St) (f : TFrame) : (step s f).2 = (route s.table f).2 := by
+  unfold step
+  cases h : route s.table f with
+  | mk t r => cases r <;> rfl
+
 /-- **after_abort_next_is_plain (C10).** After an aborted transactional delivery on link `h` — the abort frame
     with or without `more` — a plain delivery in any number of frames (tags repeated or not), frames of other
     links in between, goes to the link frame by frame: none of it is withheld. -/
@@ -88,16 +98,17 @@ theorem after_abort_next_is_plain (h : Nat) : ∀ (fs : List TFrame) (s : St),
     by_cases hh : f.handle = h
     · have hr : route s.table f = (s.table, .direct) :=
         plain_delivery_direct s.table f (by rw [hh]; exact ht) (hall f (by simp) hh)
-      have hs : step s f = (s, .direct) := by simp [step, hr]
-      simp only [run, hs, List.zip_cons_cons, List.mem_cons] at hp
+      have ht' : (step s f).1.table h = none := by rw [step_table, hr]; exact ht
+      have hd : (step s f).2 = .direct := by rw [step_route, hr]
+      have hrun : run s (f :: fs) = ((run (step s f).1 fs).1, (step s f).2 :: (run (step s f).1 fs).2) := by
+        simp [run]
+      rw [hrun] at hp
+      simp only [List.zip_cons_cons, List.mem_cons] at hp
       rcases hp with rfl | hp
-      · rfl
-      · exact after_abort_next_is_plain h fs s ht (fun g hg => hall g (by simp [hg])) p hp hph
+      · exact hd
+      · exact after_abort_next_is_plain h fs (step s f).1 ht' (fun g hg => hall g (by simp [hg])) p hp hph
     · have ht' : (step s f).1.table h = none := by
-        have := other_links_untouched s.table f h hh
-        unfold step
-        cases hr : route s.table f with
-        | mk t r => cases r <;> simp [hr] at this ⊢ <;> rw [this] <;> exact ht
+        rw [step_table, other_links_untouched s.table f h hh]; exact ht
       have hrun : run s (f :: fs) = ((run (step s f).1 fs).1, (step s f).2 :: (run (step s f).1 fs).2) := by
         simp [run]
       rw [hrun] at hp
@@ -126,16 +137,6 @@ theorem direct_keeps_work (s : St) (f : TFrame) (hr : (step s f).2 = .direct) : 
   unfold step at hr ⊢
   cases h : route s.table f with
   | mk t r => cases r <;> simp [h] at hr ⊢
-
-theorem step_table (s : St) (f : TFrame) : (step s f).1.table = (route s.table f).1 := by
-  unfold step
-  cases h : route s.table f with
-  | mk t r => cases r <;> rfl
-
-theorem step_route (s : St) (f : TFrame) : (step s f).2 = (route s.table f).2 := by
-  unfold step
-  cases h : route s.table f with
-  | mk t r => cases r <;> rfl
 
 /-- **post_withheld_whole (C10, C18).** From the first frame of a post under `id` on link `h` up to (not
     including) its last frame, with frames of other links in between in any number, the continuation frames
@@ -207,6 +208,22 @@ theorem post_work_in_order (h id tg : Nat) : ∀ (fs : List TFrame) (s : St),
         rw [step_route]; exact (continuation_withheld s.table h id tg f ht hc).1
       simp [hw, hh]
     · simp [hh]
+
+theorem source_counts_withheld : countsWithheld = true := by decide
+
+/-- **every_transfer_counted (C07).** The session's counters are advanced once for every transfer that
+    arrives, withheld under a transaction or handed on: what the session states as next-incoming-id in its
+    flows reflects the transfer frames it has received. -/
+theorem every_transfer_counted : ∀ (fs : List TFrame) (s : St), (run s fs).1.counted = s.counted + fs.length
+  | [], s => by simp [run]
+  | f :: fs, s => by
+    have h1 : (step s f).1.counted = s.counted + 1 := by
+      unfold step
+      cases h : route s.table f with
+      | mk t r => cases r <;> simp [source_counts_withheld]
+    have hrun : (run s (f :: fs)).1 = (run (step s f).1 fs).1 := by simp [run]
+    rw [hrun, every_transfer_counted fs (step s f).1, h1]
+    simp; omega
 
 /-! ### non-vacuity: a three-frame post (tag repeated on the second frame, state on the first only) whose last
     frame aborts with `more`, then a plain two-frame delivery -/
